@@ -369,3 +369,31 @@ def sum_lengths(files):
 def data_at(paths, i):
     with open(paths[i], "rb") as fh:
         return fh.read()
+
+
+@native
+def zero_digests(k):
+    return [bytes(32) for _ in range(k)]
+
+
+@native
+def repeat_digest(d, k):
+    return [bytes(d) for _ in range(k)]
+
+
+@native
+def cat(a, b):
+    return list(a) + list(b)
+
+
+@native
+def bytes_join(lst):
+    return b"".join(bytes(x) for x in lst)
+
+
+@native
+def next_pow2(n):
+    p = 1
+    while p < n:
+        p *= 2
+    return p
